@@ -692,12 +692,9 @@ func (u *Unmarshaler) processFieldPrimitiveWithJSONNumber(fieldType reflect.Type
 			return err
 		}
 
-		// if the value is a pointer, we need to check overflow with the pointer's value.
-		derefedValue := value
-		for derefedValue.Type().Kind() == reflect.Ptr {
-			derefedValue = derefedValue.Elem()
-		}
-		if derefedValue.CanFloat() && derefedValue.OverflowFloat(fValue) {
+		// target has the dereferenced type of the field, check the overflow with it,
+		// the field itself can be a nil pointer, e.g. when it's set from an environment variable.
+		if target.OverflowFloat(fValue) {
 			return fmt.Errorf("parsing %q as float32: value out of range", v.String())
 		}
 
@@ -769,24 +766,29 @@ func (u *Unmarshaler) processFieldWithEnvValue(fieldType reflect.Type, value ref
 		return err
 	}
 
-	fieldKind := fieldType.Kind()
-	switch fieldKind {
-	case reflect.Bool:
-		val, err := strconv.ParseBool(envVal)
-		if err != nil {
-			return fmt.Errorf("unmarshal field %q with environment variable, %w", fullName, err)
-		}
-
-		value.SetBool(val)
-		return nil
-	case durationType.Kind():
+	// the field can be a pointer, and an int64 is not necessarily a time.Duration.
+	derefedType := Deref(fieldType)
+	switch {
+	case derefedType == durationType:
 		if err := fillDurationValue(fieldType, value, envVal); err != nil {
 			return fmt.Errorf("unmarshal field %q with environment variable, %w", fullName, err)
 		}
 
 		return nil
-	case reflect.String:
-		value.SetString(envVal)
+	case derefedType.Kind() == reflect.Bool:
+		val, err := strconv.ParseBool(envVal)
+		if err != nil {
+			return fmt.Errorf("unmarshal field %q with environment variable, %w", fullName, err)
+		}
+
+		target := reflect.New(derefedType).Elem()
+		target.SetBool(val)
+		SetValue(fieldType, value, target)
+		return nil
+	case derefedType.Kind() == reflect.String:
+		target := reflect.New(derefedType).Elem()
+		target.SetString(envVal)
+		SetValue(fieldType, value, target)
 		return nil
 	default:
 		return u.processFieldPrimitiveWithJSONNumber(fieldType, value, json.Number(envVal), opts, fullName)
